@@ -135,6 +135,8 @@ def search(run, info):
                 a.insert(pos, "missing.st")
                 scenarios.append((si, fsys, cmd, a, "missing"))
             scenarios.append((si, fsys, cmd, ["dsub"], "dir-with-subdir"))
+            # a directory whose entries are symbolic links to the files: the same set as the directory of the files
+            scenarios.append((si, fsys, cmd, ["dlink"], "dir-of-links"))
     for cmd in ("check", "tokenize", "echo"):
         scenarios.append((-1, {"files": {}, "dirs": {"d": []}}, cmd, [], "no-paths"))
         scenarios.append((-1, {"files": {}, "dirs": {"d": []}}, cmd, ["d"], "empty-dir"))
@@ -156,6 +158,11 @@ def search(run, info):
         for name in names[1:]:
             with open(os.path.join(root, "d2", name), "wb") as f:
                 f.write(POOL[fsys["files"][name]][1])
+        os.makedirs(os.path.join(root, "dlink"), exist_ok=True)
+        for name in names:
+            lp = os.path.join(root, "dlink", name)
+            if not os.path.lexists(lp):
+                os.symlink(os.path.join("..", name), lp)
         roots[si] = root
 
     def job(sc):
@@ -183,12 +190,13 @@ def search(run, info):
         specs.append("%d:D%s" % (P("d2"), ",".join(str(P(n)) for n in names[1:])))
         specs.append("%d:D%s" % (P("dsub"), ",".join([str(P(n)) for n in names] + [str(P("inner"))])))
         specs.append("%d:D" % P("inner"))
+        specs.append("%d:D%s" % (P("dlink"), ",".join(str(P(n)) for n in names)))
         # which contents end up in the project (for the analysis parameter)
         listed = []
         for a in args:
             if a in fsys["files"]:
                 listed.append(fsys["files"][a])
-            elif a == "d":
+            elif a in ("d", "dlink"):
                 listed += [fsys["files"][n] for n in names]
             elif a == "d2":
                 listed += [fsys["files"][n] for n in names[1:]]
